@@ -125,6 +125,9 @@ def gen_cases(rng, tier):
                     r["id"] = r["id"].replace("EX_", rng.choice(["EX_asn_", "EX_cdm_"]), 1)
                     if rng.random() < 0.5:
                         r["lb"], r["ub"] = "0", "0"          # closed: only open_exchanges lets it carry flux
+        for r in net["rxns"]:
+            if r["ub"] == "0" and gennet.num(r["lb"]) < 0 and rng.random() < 0.3:
+                r["lb"] = "-inf"           # backwards only, without a limit (cases with an unbounded range are skipped)
         ids = [r["id"] for r in net["rxns"]]
         if rng.random() < 0.5:
             sub = None
@@ -269,7 +272,7 @@ def case_term(case):
                             else ("objects" if case["objects"] else "ids"), "processes": case["processes"],
                             "n_blocked": nb, "n_rxns": len(vals), "dir": net["dir"],
                             "objective_zeroed_in_source": zero_obj_in_source(), "fastcc": fast != "None",
-                            "no_reversible_reaction": all(not (gennet.num(r["lb"]) < 0 < gennet.num(r["ub"]))
+                            "no_reversible_reaction": all(not ((r["lb"] == "-inf" or gennet.num(r["lb"]) < 0) and 0 < gennet.num(r["ub"]))
                                                           for r in net["rxns"])}}
 
 
